@@ -11,6 +11,8 @@ CONSTANTS
   CRProg <- A_CR
   Forms = {"fresh"}
   Colls = {}
+  LAs <- NoLA_A
+  DropOn = FALSE
   QuitOn = TRUE
   QuitDeferred = TRUE
   DefCap = 1
